@@ -248,6 +248,7 @@ Proof. intros A R r H. destruct r; simpl; auto. Qed.
 
 Section Sound.
 Variable ns : list string.
+Variable msig : list (string * string).   (* declared (name, type) of the members *)
 Variable brs : list branch.
 Variable ev : event.
 
@@ -258,6 +259,7 @@ Record Rst (sg : astate) (st1 st2 : state) : Prop := {
   R_rows : rows st1 = rows st2;
   R_fresh : fresh (frames st1);
   R_sig : fsig (members st1) = fsig (members st2);
+  R_msig : fsig (members st1) = msig;
   R_dom : map fst (members st1) = ns;
   R_mem : forall x, vrel (aget x sg) (frame_get x (members st1)) (frame_get x (members st2))
 }.
@@ -381,6 +383,7 @@ Proof.
   destruct S1 as [m1 [A1 [A2 [A3 [A4 A5]]]]]. destruct S2 as [m2 [B1 [B2 [B3 [B4 B5]]]]].
   rewrite A1, B1. do 2 eexists. split; [reflexivity|]. split; [reflexivity|].
   destruct H. constructor; simpl; auto.
+  - congruence.
   - congruence.
   - congruence.
   - intros y. destruct (String.eqb y x) eqn:E.
@@ -654,3 +657,261 @@ Proof.
     + intros a b K. eapply IHr; eauto.
 Qed.
 End Sound.
+
+(* ---------- one event ---------- *)
+Definition member_sig (p : program) : list (string * string) :=
+  map (fun m => (m_name m, m_type m)) (p_members p).
+
+(* a member state as it is at the start of an event of a job that has not failed: the declared members
+   with their declared types, every vector-typed member empty, scalars arbitrary *)
+Definition clean_members (p : program) (ms : frame) : Prop :=
+  fsig ms = member_sig p /\
+  Forall (fun b => is_vector_type (fst (snd b)) = true -> snd (snd b) = VVec []) ms.
+
+Definition event_outcome_rel (p : program)
+  (r1 r2 : res (list (list value) * frame)) : Prop :=
+  match r1, r2 with
+  | ROk (rs1, ms1'), ROk (rs2, ms2') => rs1 = rs2 /\ clean_members p ms1' /\ clean_members p ms2'
+  | RFault f1, RFault f2 => f1 = f2
+  | RStuck k1, RStuck k2 => k1 = k2
+  | _, _ => False
+  end.
+
+Lemma member_sig_dom : forall p, map fst (member_sig p) = member_names p.
+Proof. intros p. unfold member_sig, member_names. rewrite map_map. reflexivity. Qed.
+
+Lemma nodupb_NoDup : forall l, nodupb l = true -> NoDup l.
+Proof.
+  induction l as [|x r IH]; simpl; intros H; constructor.
+  - apply andb_true_iff in H. destruct H as [H _]. apply negb_true_iff in H.
+    intros C. assert (existsb (String.eqb x) r = true).
+    { apply existsb_exists. exists x. split; auto. apply String.eqb_refl. }
+    congruence.
+  - apply IH. apply andb_true_iff in H. apply H.
+Qed.
+
+Lemma frame_get_in_nodup : forall (f : frame) x tv, NoDup (map fst f) -> In (x, tv) f -> frame_get x f = Some tv.
+Proof.
+  induction f as [|[y w] r IH]; simpl; intros x tv N H; try contradiction.
+  inversion N; subst. destruct H as [H|H].
+  - inversion H; subst. rewrite String.eqb_refl. reflexivity.
+  - destruct (String.eqb x y) eqn:E.
+    + apply String.eqb_eq in E. subst. exfalso. apply H2. apply in_map_iff. exists (y, tv). auto.
+    + apply IH; auto.
+Qed.
+
+(* the initial abstract state describes every clean member state *)
+Lemma initial_rel : forall ms (f1 f2 : frame),
+  fsig f1 = map (fun m => (m_name m, m_type m)) ms ->
+  fsig f2 = map (fun m => (m_name m, m_type m)) ms ->
+  Forall (fun b => is_vector_type (fst (snd b)) = true -> snd (snd b) = VVec []) f1 ->
+  Forall (fun b => is_vector_type (fst (snd b)) = true -> snd (snd b) = VVec []) f2 ->
+  forall x,
+  vrel (aget x (map (fun m => (m_name m, if is_vector_type (m_type m) then LClean else LAny)) ms))
+       (frame_get x f1) (frame_get x f2).
+Proof.
+  induction ms as [|m r IH]; intros f1 f2 S1 S2 V1 V2 x; simpl.
+  - exact I.
+  - destruct f1 as [|[y1 [t1 v1]] r1]; simpl in S1; try discriminate.
+    destruct f2 as [|[y2 [t2 v2]] r2]; simpl in S2; try discriminate.
+    inversion S1; subst. inversion S2; subst. inversion V1; subst. inversion V2; subst. simpl in *.
+    destruct (String.eqb x (m_name m)) eqn:E.
+    + destruct (is_vector_type (m_type m)) eqn:T; simpl; auto.
+      rewrite H1, H5; auto. eauto.
+    + apply IH; auto.
+Qed.
+
+Lemma final_clean : forall p sg (f : frame),
+  NoDup (member_names p) -> fsig f = member_sig p -> final_ok p sg = true ->
+  (forall x, aget x sg = LClean -> exists t, frame_get x f = Some (t, VVec [])) ->
+  clean_members p f.
+Proof.
+  intros p sg f N S F G. split; auto.
+  apply Forall_forall. intros [x [t v]] Hin T. simpl in *.
+  assert (Nf : NoDup (map fst f)). { rewrite <- fsig_dom, S, member_sig_dom. exact N. }
+  pose proof (frame_get_in_nodup f x (t, v) Nf Hin) as Gx.
+  assert (Hm : In (x, t) (member_sig p)). { rewrite <- S. unfold fsig. apply in_map_iff. exists (x, (t, v)). auto. }
+  unfold member_sig in Hm. apply in_map_iff in Hm. destruct Hm as [m [Hm1 Hm2]]. inversion Hm1; subst.
+  unfold final_ok in F. rewrite forallb_forall in F. specialize (F m Hm2). rewrite T in F.
+  destruct (aget (m_name m) sg) eqn:L; try discriminate.
+  destruct (G _ L) as [t' G']. rewrite Gx in G'. inversion G'. reflexivity.
+Qed.
+
+Theorem event_local_sound_proof : forall p, event_local p = true ->
+  forall ev ms1 ms2, clean_members p ms1 -> clean_members p ms2 ->
+  event_outcome_rel p (run_event p ms1 ev) (run_event p ms2 ev).
+Proof.
+  intros p EL ev ms1 ms2 [S1 V1] [S2 V2]. unfold event_local in EL.
+  apply andb_true_iff in EL. destruct EL as [N EL]. apply nodupb_NoDup in N.
+  destruct (event_local_state p) as [sg|] eqn:A; try discriminate.
+  unfold event_local_state in A.
+  set (st1 := {| frames := []; members := ms1; rows := [] |}).
+  set (st2 := {| frames := []; members := ms2; rows := [] |}).
+  assert (R0 : Rst (member_names p) (member_sig p) (initial_astate p) st1 st2).
+  { constructor; simpl; auto.
+    - intros x _. reflexivity.
+    - congruence.
+    - rewrite <- fsig_dom, S1. apply member_sig_dom.
+    - apply initial_rel; auto. }
+  pose proof (proj1 (proj2 (exec_sound (member_names p) (member_sig p) (p_branches p) ev)) (p_body p) _ _ [] st1 st2 A R0
+                (fun x _ => eq_refl)) as K.
+  unfold run_event. fold st1. fold st2.
+  destruct (exec_block (p_branches p) ev (p_body p) [] st1) as [a| |],
+           (exec_block (p_branches p) ev (p_body p) [] st2) as [b| |]; simpl in K; try contradiction; simpl; auto.
+  pose proof (R_rows _ _ _ _ _ K) as Kr. pose proof (R_msig _ _ _ _ _ K) as Ka.
+  pose proof (R_sig _ _ _ _ _ K) as Kb. pose proof (R_mem _ _ _ _ _ K) as Km.
+  split; [exact Kr|]. split.
+  - eapply final_clean; eauto. intros x L. specialize (Km x). rewrite L in Km.
+    destruct Km as [t [Km _]]. eauto.
+  - eapply final_clean; eauto. { congruence. }
+    intros x L. specialize (Km x). rewrite L in Km. destruct Km as [t [_ Km]]. eauto.
+Qed.
+
+(* ---------- jobs ---------- *)
+(* the job in which every event is processed by a FRESH analysis object (nothing carried over) *)
+Fixpoint per_event_from (p : program) (evs : list event) (n : nat) (acc : list (list (list value))) : job_result :=
+  match evs with
+  | [] => JDone acc
+  | ev :: r =>
+      match run_event p (initial_members (p_members p)) ev with
+      | ROk (rs, _) => per_event_from p r (S n) (acc ++ [rs])
+      | RFault f => JAbort acc n f
+      | RStuck k => JStuck n k
+      end
+  end.
+Definition per_event_job (p : program) (evs : list event) : job_result := per_event_from p evs 0 [].
+
+(* rows of the one-event job *)
+Definition event_rows (p : program) (ev : event) : list (list value) :=
+  match run_job p [ev] with JDone [rs] => rs | _ => [] end.
+Definition event_done (p : program) (ev : event) : Prop := run_job p [ev] = JDone [event_rows p ev].
+
+Lemma initial_clean : forall p, clean_members p (initial_members (p_members p)).
+Proof.
+  intros p. unfold clean_members, initial_members, member_sig, fsig. split.
+  - rewrite map_map. reflexivity.
+  - apply Forall_forall. intros b Hb. apply in_map_iff in Hb. destruct Hb as [m [Hb _]]. subst. simpl.
+    unfold default_value. intros T. rewrite T. reflexivity.
+Qed.
+
+Lemma run_job_single : forall p ev,
+  run_job p [ev] = match run_event p (initial_members (p_members p)) ev with
+                   | ROk (rs, _) => JDone [rs]
+                   | RFault f => JAbort [] 0 f
+                   | RStuck k => JStuck 0 k
+                   end.
+Proof.
+  intros p ev. unfold run_job. simpl.
+  destruct (run_event p (initial_members (p_members p)) ev) as [[rs ms]| |]; reflexivity.
+Qed.
+
+Lemma job_from_per_event : forall p, event_local p = true ->
+  forall evs ms n acc, clean_members p ms -> run_job_from p ms evs n acc = per_event_from p evs n acc.
+Proof.
+  intros p EL. induction evs as [|ev r IH]; intros ms n acc C; simpl; auto.
+  pose proof (event_local_sound_proof p EL ev ms _ C (initial_clean p)) as K.
+  destruct (run_event p ms ev) as [[rs1 m1]| |],
+           (run_event p (initial_members (p_members p)) ev) as [[rs2 m2]| |]; simpl in K; try contradiction.
+  - destruct K as [K1 [K2 K3]]. subst. apply IH. exact K2.
+  - subst. reflexivity.
+  - subst. reflexivity.
+Qed.
+
+Theorem job_per_event_proof : forall p, event_local p = true ->
+  forall evs, run_job p evs = per_event_job p evs.
+Proof. intros p EL evs. apply job_from_per_event; auto. apply initial_clean. Qed.
+
+Lemma per_event_done : forall p evs n acc rss,
+  per_event_from p evs n acc = JDone rss ->
+  rss = acc ++ map (event_rows p) evs /\ Forall (event_done p) evs.
+Proof.
+  intros p. induction evs as [|ev r IH]; intros n acc rss H; simpl in H.
+  - inversion H. simpl. rewrite app_nil_r. auto.
+  - pose proof (run_job_single p ev) as S.
+    destruct (run_event p (initial_members (p_members p)) ev) as [[rs m]| |] eqn:E; try discriminate.
+    apply IH in H. destruct H as [H1 H2].
+    assert (Er : event_rows p ev = rs). { unfold event_rows. rewrite S. reflexivity. }
+    split.
+    + rewrite H1. simpl. rewrite Er. rewrite <- app_assoc. reflexivity.
+    + constructor; auto. unfold event_done. rewrite Er. exact S.
+Qed.
+
+Lemma per_event_all_done : forall p evs n acc,
+  Forall (event_done p) evs -> per_event_from p evs n acc = JDone (acc ++ map (event_rows p) evs).
+Proof.
+  intros p. induction evs as [|ev r IH]; intros n acc H; simpl.
+  - rewrite app_nil_r. reflexivity.
+  - inversion H; subst. unfold event_done in H2. rewrite run_job_single in H2.
+    pose proof (run_job_single p ev) as S.
+    destruct (run_event p (initial_members (p_members p)) ev) as [[rs m]| |] eqn:E; try discriminate.
+    inversion H2 as [Er]. rewrite IH; auto. rewrite <- Er. rewrite <- app_assoc. reflexivity.
+Qed.
+
+Lemma per_event_abort : forall p evs n acc rss k f,
+  per_event_from p evs n acc = JAbort rss k f ->
+  exists pre ev post, evs = pre ++ ev :: post /\ k = n + List.length pre /\
+                      rss = acc ++ map (event_rows p) pre /\ Forall (event_done p) pre /\
+                      run_job p [ev] = JAbort [] 0 f.
+Proof.
+  intros p. induction evs as [|ev r IH]; intros n acc rss k f H; simpl in H; try discriminate.
+  pose proof (run_job_single p ev) as S.
+  destruct (run_event p (initial_members (p_members p)) ev) as [[rs m]| |] eqn:E; try discriminate.
+  - apply IH in H. destruct H as [pre [ev' [post [H1 [H2 [H3 [H4 H5]]]]]]].
+    assert (Er : event_rows p ev = rs). { unfold event_rows. rewrite S. reflexivity. }
+    exists (ev :: pre), ev', post. subst. simpl. repeat split; auto.
+    rewrite <- app_assoc. reflexivity.
+  - inversion H; subst. exists [], ev, r. simpl. rewrite app_nil_r, <- plus_n_O. repeat split; auto.
+Qed.
+
+Theorem rows_per_event_proof : forall p, event_local p = true ->
+  forall evs rss, run_job p evs = JDone rss ->
+  rss = map (event_rows p) evs /\ Forall (event_done p) evs.
+Proof.
+  intros p EL evs rss H. rewrite (job_per_event_proof p EL) in H.
+  apply per_event_done in H. exact H.
+Qed.
+
+Theorem abort_prefix_proof : forall p, event_local p = true ->
+  forall evs rss k f, run_job p evs = JAbort rss k f ->
+  exists pre ev post, evs = pre ++ ev :: post /\ k = List.length pre /\
+                      rss = map (event_rows p) pre /\ Forall (event_done p) pre /\
+                      run_job p [ev] = JAbort [] 0 f.
+Proof.
+  intros p EL evs rss k f H. rewrite (job_per_event_proof p EL) in H.
+  apply per_event_abort in H. exact H.
+Qed.
+
+Theorem all_done_job_proof : forall p, event_local p = true ->
+  forall evs, Forall (event_done p) evs -> run_job p evs = JDone (map (event_rows p) evs).
+Proof.
+  intros p EL evs H. rewrite (job_per_event_proof p EL). unfold per_event_job.
+  rewrite per_event_all_done; auto.
+Qed.
+
+Theorem permutation_proof : forall p, event_local p = true ->
+  forall evs evs' rss, Permutation evs evs' -> run_job p evs = JDone rss ->
+  exists rss', run_job p evs' = JDone rss' /\ Permutation rss rss'.
+Proof.
+  intros p EL evs evs' rss P H.
+  apply (rows_per_event_proof p EL) in H. destruct H as [H1 H2].
+  exists (map (event_rows p) evs'). split.
+  - apply all_done_job_proof; auto. eapply Permutation_Forall; eauto.
+  - subst. apply Permutation_map. exact P.
+Qed.
+
+Theorem split_proof : forall p, event_local p = true ->
+  forall evs1 evs2 rss,
+  run_job p (evs1 ++ evs2) = JDone rss <->
+  exists rss1 rss2, run_job p evs1 = JDone rss1 /\ run_job p evs2 = JDone rss2 /\ rss = rss1 ++ rss2.
+Proof.
+  intros p EL evs1 evs2 rss. split.
+  - intros H. apply (rows_per_event_proof p EL) in H. destruct H as [H1 H2].
+    apply Forall_app in H2. destruct H2 as [Ha Hb].
+    exists (map (event_rows p) evs1), (map (event_rows p) evs2).
+    repeat split; try (apply all_done_job_proof; auto).
+    rewrite H1. apply map_app.
+  - intros [rss1 [rss2 [H1 [H2 H3]]]].
+    apply (rows_per_event_proof p EL) in H1. apply (rows_per_event_proof p EL) in H2.
+    destruct H1 as [A1 A2], H2 as [B1 B2]. subst.
+    rewrite <- map_app. apply all_done_job_proof; auto. apply Forall_app. auto.
+Qed.
